@@ -38,6 +38,30 @@ func (w *World) verifyFunc(sel string, con *Contract) *FuncResult {
 		res.SpecErrors = append(res.SpecErrors, fmt.Sprintf("%s:%d: contract selector %q does not resolve to a function", con.File, con.Line, sel))
 		return res
 	}
+	// every "at call" directive must designate at least one call site of this function:
+	// a directive that matches nothing would silently check nothing
+	if len(con.Ats) > 0 {
+		counts := map[string]int{}
+		for _, b := range fn.Blocks {
+			for _, in := range b.Instrs {
+				if ci, ok := in.(ssa.CallInstruction); ok {
+					name := calleeName(ci.Common())
+					if bi, ok := ci.Common().Value.(*ssa.Builtin); ok {
+						name = bi.Name()
+					}
+					counts[name]++
+				}
+			}
+		}
+		for _, a := range con.Ats {
+			if counts[a.Callee] == 0 || a.Ordinal > counts[a.Callee] {
+				res.SpecErrors = append(res.SpecErrors, fmt.Sprintf("%s:%d: 'at call %s #%d' matches no call site of %s (%d calls of that name)", a.File, a.Line, a.Callee, a.Ordinal, sel, counts[a.Callee]))
+			}
+		}
+		if len(res.SpecErrors) > 0 {
+			return res
+		}
+	}
 	if con.Expect != "" && con.Expect != shortName(fn.Signature.String()) {
 		res.SpecErrors = append(res.SpecErrors, fmt.Sprintf("%s:%d: %s has signature %s, contract expects %s", con.File, con.Line, sel, shortName(fn.Signature.String()), con.Expect))
 		return res
